@@ -130,3 +130,26 @@ Proof.
   eapply Forall_impl; [|exact Hok]. intros b [blk [Hb' Hk]]. exists blk. split; [congruence|].
   rewrite <- (knode_for_cnodes w c c2 _ Scn). exact Hk.
 Qed.
+
+(* ---------- the oracle's notion of "alive" is the controller's lookup ---------- *)
+Lemma node_alive_kexists : forall s w c n,
+  s_w s = w -> s_cnodes s = c_cnodes c -> ~ In 0 (w_knodes w) -> node_alive s n = kexists w c n.
+Proof.
+  intros s w c n Hw Hc H0.
+  assert (Z : nmem 0 (w_knodes w) = false)
+    by (destruct (nmem 0 (w_knodes w)) eqn:E; auto; apply nmem_In in E; contradiction). unfold node_alive, node_nonk8s, node_known, cached_k8s, kexists, knode_for. rewrite Hw, Hc.
+  destruct (mget n (c_cnodes c)) as [[|]|]; destruct (mget n (w_cnodesA w)) as [[|]|]; simpl;
+    rewrite ?N.eqb_refl, ?andb_true_r, ?andb_false_r, ?orb_false_r; try reflexivity;
+    destruct (N.eqb n 0) eqn:E; simpl; try reflexivity; try (apply N.eqb_eq in E; subst; reflexivity).
+  all: apply N.eqb_eq in E; subst; exact Z.
+Qed.
+
+(* the oracle clause for ReleaseHostAffinities accepts every model sync, whenever the oracle's replay of the world and
+   of the syncer's node cache coincides with the controller's (it does by construction: both fold the same events) *)
+Theorem sync_meets_ok_rha : forall f w norder gorder border c s,
+  s_w s = w -> s_cnodes s = c_cnodes c -> ~ In 0 (w_knodes w) ->
+  ok_rha s (so_rha (snd (sync_ipam f w norder gorder border c))) = true.
+Proof.
+  intros f w norder gorder border c s Hw Hc H0. unfold ok_rha. apply forallb_forall. intros n Hn.
+  rewrite (node_alive_kexists s w c n Hw Hc H0). rewrite (sync_rha_dead f w norder gorder border c n Hn). reflexivity.
+Qed.
